@@ -11,6 +11,10 @@ pub(crate) mod world;
 pub(crate) mod speaker;
 #[path = "/verif/harness/d/c08.rs"]
 pub(crate) mod c08;
+#[path = "/verif/harness/d/topo.rs"]
+pub(crate) mod topo;
+#[path = "/verif/harness/d/c01.rs"]
+pub(crate) mod c01;
 
 use vcore::{BatchPlan, Check};
 
@@ -56,6 +60,7 @@ fn plan(property: &str) -> BatchPlan {
 
 pub(crate) fn verif_main(args: &[String]) -> i32 {
     let c08 = c08::HoldTimers;
-    let checks: Vec<&dyn Check> = vec![&c08];
+    let c01 = c01::Convergence;
+    let checks: Vec<&dyn Check> = vec![&c08, &c01];
     vcore::main_with(&checks, &plan, args)
 }
